@@ -201,7 +201,7 @@ def split_goal(g, depth=0):
     return [g]
 
 
-def _check_one(pc, insts, goal, timeout_ms, use_cvc5):
+def _check_one(pc, insts, goal, timeout_ms, use_cvc5, cross=False):
     """returns (status, backend, model, smt2, hash).  Schedule: short attempts under several
     random seeds first (the sequence solver is erratic, a lucky seed answers in ms), then the
     full budget, then cvc5."""
@@ -223,6 +223,18 @@ def _check_one(pc, insts, goal, timeout_ms, use_cvc5):
             h = hashlib.sha256(s.sexpr().encode()).hexdigest()[:16]
         r = guarded_check(s, tmo)
         if r == z3.unsat:
+            # z3's sequence solver has answered unsat on a satisfiable query once (see
+            # tools/z3_unsound_seq_example.smt2): unsat answers over general sequences are re-asked
+            # of cvc5 (always in the thorough tier); a definite disagreement is a checker error
+            txt = None
+            if cross or use_cvc5:
+                txt = s.to_smt2()
+            if txt is not None and (cross or "seq.unit" in txt):
+                r2 = run_cvc5(txt, 2000 if not cross else min(timeout_ms, 20000))
+                if r2 == "sat":
+                    return "disagree", "z3:unsat/cvc5:sat", None, txt, h
+                if r2 == "unsat":
+                    return "discharged", "z3,cvc5", None, None, h
             return "discharged", "z3", None, None, h
         if r == z3.sat:
             mdl = s.model()
@@ -306,11 +318,14 @@ def solve_vc(vc, timeout_ms=10000, use_cvc5=True, want_smt2=False, cross=False):
     smt2 = None
     for g in parts:
         g = witness_exists(g, vc.pc)
-        st, be, mdl, s2, h = _check_one(vc.pc, insts, g, timeout_ms, use_cvc5)
+        st, be, mdl, s2, h = _check_one(vc.pc, insts, g, timeout_ms, use_cvc5, cross)
         hashes.append(h)
         backends.add(be)
         if st == "discharged" and cross and s2 is None:
             pass
+        if st == "disagree":
+            worst, smt2 = "disagree", s2
+            break
         if st == "failed":
             worst, model, smt2 = "failed", mdl, s2
             break
@@ -326,7 +341,9 @@ def run_cvc5(smt2, timeout_ms):
     if not os.path.exists(CVC5):
         return "unknown"
     # z3 prints (check-sat) at the end; make sure a logic is set for cvc5
-    text = "(set-logic ALL)\n" + smt2
+    text = "(set-logic ALL)\n" + smt2.replace("seq.nth_i", "seq.nth").replace("seq.nth_u", "seq.nth")
+    if "last_indexof" in text:
+        return "unknown"
     with tempfile.NamedTemporaryFile("w", suffix=".smt2", delete=False) as f:
         f.write(text)
         path = f.name
